@@ -369,10 +369,17 @@ func GetLatestBundle(repo string, stores context2.Stores) (string, error) {
 		return "", fmt.Errorf("no bundles uploaded to repo: %s", repo)
 	}
 
-	apc, err := model.GetArchivePathComponents(ks[len(ks)-1])
-	if err != nil {
-		return "", err
+	// Keys come sorted: the last bundle descriptor is the latest committed bundle. Keys of file lists
+	// without a descriptor are leftovers of an interrupted (or still running) upload, not bundles.
+	for i := len(ks) - 1; i >= 0; i-- {
+		apc, err := model.GetArchivePathComponents(ks[i])
+		if err != nil {
+			return "", err
+		}
+		if ks[i] == model.GetArchivePathToBundle(repo, apc.BundleID) {
+			return apc.BundleID, nil
+		}
 	}
 
-	return apc.BundleID, nil
+	return "", fmt.Errorf("no bundles uploaded to repo: %s", repo)
 }
